@@ -4,7 +4,8 @@ whose row streams break off (harness/cmd/promreq, coq/model/PromReq.v).
 kind "overlap": 2-3 query / query_range requests on ONE reader process (real router, controller, engine, the router's
 one CLokiQueriable), gated at Querier(), inside the sample rows and inside the label rows, advanced by a generated
 schedule.  Judged per request: (a) every statement and every row read of a request runs under the context of THAT
-request, not yet cancelled (model PromReq.run = observed trace; spec look_ok on the observations), (b) the HTTP answer
+request, done only when the request itself ended, i.e. its client went away (model PromReq.run = observed trace = the
+trace specification spec_looks), (b) the HTTP answer
 is exactly what Prometheus answers over the request's stored samples (each selected series once, under its own label
 set, all points), or an error when the request's own row stream failed.
 kind "stream": one Select whose sample / label row stream reports a driver error after k rows: an error, never a
@@ -82,13 +83,15 @@ def eval_cases(ck, name, cases):
 
 
 def req_ok(r):
+    if r.get("cancelled"):      # its client went away: no answer is owed (its looks are judged by the trace specification)
+        return True
     if r.get("want_err"):
         return r["status"] >= 500
     return r["status"] == 200 and r["got"] == r["want"]
 
 
 def slim_req(r):
-    return {k: r.get(k) for k in ("kind", "query", "ms", "start", "end", "step", "db", "parks", "fail", "status", "err_msg", "got", "want", "want_err", "looks")}
+    return {k: r.get(k) for k in ("kind", "query", "ms", "start", "end", "step", "db", "parks", "fail", "cancel_after", "cancelled", "status", "err_msg", "got", "want", "want_err", "looks")}
 
 
 def size(c):
@@ -156,10 +159,10 @@ def run(ck):
     st = [c for c in cases if c["kind"] == "stream"]
     bad_req = [(c, i) for c in ov for i, r in enumerate(c["reqs"]) if not req_ok(r)]
     nreq = sum(len(c["reqs"]) for c in ov)
-    ck.obligation("observed traces are well-formed (PromReq.wf: the hypothesis of overlapping_requests_*)", not res["OW"], "case ids %s" % res["OW"][:10])
+    ck.obligation("observed traces are well-formed (PromReq.wfc: the hypothesis of overlapping_requests_follow_the_trace_specification)", not res["OW"], "case ids %s" % res["OW"][:10])
     ck.obligation("correspondence: PromReq.run (per-request copy of the queryable) = observed contexts of %d overlap scenarios" % len(ov),
                   not res["OM"], "case ids %s" % res["OM"][:10])
-    ck.obligation("spec look_ok: every statement / row read of a request runs under its own, un-cancelled context", not res["OV"], "case ids %s" % res["OV"][:10])
+    ck.obligation("spec spec_looks: every statement / row read of a request runs under its own context, done only when the request itself ended (its client went away)", not res["OV"], "case ids %s" % res["OV"][:10])
     ck.obligation("every request answers exactly its matching series with all points, or an error when its own stream failed (%d requests)" % nreq,
                   not bad_req, "case ids %s" % [c["id"] for c, _ in bad_req[:10]])
     ck.obligation("correspondence: select_stream = real Select on %d failing / complete row streams" % len(st), not res["SM"], "case ids %s" % res["SM"][:10])
@@ -174,11 +177,12 @@ def run(ck):
         ck.violation({"property": "C17", "part": "overlapping requests", "kind": what, "failing_request": i,
                       "got": r["got"], "want": r["want"], "status": r["status"], "err_msg": r.get("err_msg"),
                       "foreign_or_done_contexts": [l for l in r["looks"] if l["ctx_req"] != i or l["done"]],
+                      "clients_that_went_away": [j for j, x in enumerate(c["reqs"]) if x.get("cancelled")],
                       "case": {"id": c["id"], "kind": "overlap", "class": c["class"], "reqs": [slim_req(x) for x in c["reqs"]], "schedule": c["schedule"], "trace": c["trace"]},
                       "replay": "harness promreq --cases <file with .case on one line>"})
     elif res["OV"]:
         c = min((byid[i] for i in res["OV"]), key=size)
-        ck.violation({"property": "C17", "part": "overlapping requests", "kind": "a querier ran a statement under another request's (or a cancelled) context; the answers happened to be right",
+        ck.violation({"property": "C17", "part": "overlapping requests", "kind": "a querier ran a statement under another request's context (or a context cancelled by another request's end); the answers happened to be right",
                       "case": {"id": c["id"], "kind": "overlap", "class": c["class"], "reqs": [slim_req(x) for x in c["reqs"]], "schedule": c["schedule"], "trace": c["trace"]},
                       "replay": "harness promreq --cases <file with .case on one line>"})
     elif res["OM"] or res["OW"]:
@@ -210,12 +214,13 @@ def run(ck):
     ck.coverage["distinct_nontrivial"] += len(distinct)
     ck.coverage["rule"] += ("requests: 2-3 overlapping query / query_range requests over a plain selector (0-2 further matchers = != =~ !~ on present and absent labels) with 1-4 stored series each, "
                             "park points inside Querier() / before a sample row / before a label row, schedule = random interleaving or the overtaking pattern (Y waits inside Querier(), X runs from set-up to end, "
-                            "Y reads its rows), 1 in 6 requests with a driver error inside its own stream; streams: Select over 1-4 series whose sample or label stream breaks off after k rows; "
+                            "Y reads its rows), 1 in 6 requests with a driver error inside its own stream, 1 in 5 requests with park points loses its client at one of them; streams: Select over 1-4 series whose sample or label stream breaks off after k rows; "
                             "non-trivial = overlap scenario where some request selects a series and two requests interleave / stream case with >= 2 rows; distinct by content. ")
     ck.extra["promreq_input_classes"] = hist
     ck.extra["promreq_measured"] = {"overlap_scenarios": len(ov), "requests": nreq, "context_looks_observed": looks,
                                     "scenarios_with_seed_C17f_interleaving (class overtaken)": hist.get("overtaken", 0),
                                     "of_those_the_other_request_ended_inside_the_label_rows": hist.get("overtaken-inside-label-rows", 0),
+                                    "requests_whose_client_went_away": sum(1 for c in ov for r in c["reqs"] if r.get("cancelled")),
                                     "requests_with_failing_own_stream": hist.get("stream-fails/samples", 0) + hist.get("stream-fails/labels", 0),
                                     "stream_cases": len(st)}
     ck.add_samples([{"kind": "overlap", "queries": [r["query"] for r in c["reqs"]], "parks": [r["parks"] for r in c["reqs"]], "schedule": c["schedule"],
